@@ -51,6 +51,11 @@ func evalOnceOS(parent context.Context, src string, oc *osCase) string {
 
 // evalAny evaluates the source, or - when code is given - that compiled code (risor.EvalCode), under the same configuration
 func evalAny(parent context.Context, src string, code *compiler.Code, oc *osCase) string {
+	return evalAnyOpts(parent, src, code, oc, nil)
+}
+
+// evalAnyOpts: the same with additional options of the embedding API (dotted denies / overrides, extra globals)
+func evalAnyOpts(parent context.Context, src string, code *compiler.Code, oc *osCase, extra []risor.Option) string {
 	// every evaluation has its own time budget; one that runs into it is reported as such (what a cancelled
 	// evaluation has produced so far depends on the clock, not on the program)
 	ctx, cancel := context.WithTimeout(context.Background(), 4*time.Second)
@@ -62,10 +67,11 @@ func evalAny(parent context.Context, src string, code *compiler.Code, oc *osCase
 	}
 	var res object.Object
 	var err error
+	opts := append([]risor.Option{risor.WithOS(vos), risor.WithoutGlobals(denied...)}, extra...)
 	if code != nil {
-		res, err = risor.EvalCode(ctx, code, risor.WithOS(vos), risor.WithoutGlobals(denied...))
+		res, err = risor.EvalCode(ctx, code, opts...)
 	} else {
-		res, err = risor.Eval(ctx, src, risor.WithOS(vos), risor.WithoutGlobals(denied...))
+		res, err = risor.Eval(ctx, src, opts...)
 	}
 	s := ""
 	if err != nil {
@@ -76,7 +82,36 @@ func evalAny(parent context.Context, src string, code *compiler.Code, oc *osCase
 	} else if res != nil {
 		s = "OK " + res.Inspect()
 	}
-	return s + "\x00" + out.String()
+	// what the embedding program sees when it converts the result: Interface(), MarshalJSON, String()
+	return s + "\x00" + out.String() + "\x00" + hostView(res)
+}
+
+// obsDiff names the part of the observation (result / error, stdout, host view) in which two evaluations differ and shows both
+func obsDiff(a, b string) string {
+	pa, pb := strings.SplitN(a, "\x00", 3), strings.SplitN(b, "\x00", 3)
+	names := []string{"result / error text", "captured stdout", "host view of the result (I: Interface(), J: json.Marshal, S: String())"}
+	for i := 0; i < 3 && i < len(pa) && i < len(pb); i++ {
+		if pa[i] != pb[i] {
+			x, y := pa[i], pb[i]
+			j := 0
+			for j < len(x) && j < len(y) && x[j] == y[j] {
+				j++
+			}
+			lo := j - 60
+			if lo < 0 {
+				lo = 0
+			}
+			cut := func(t string) string {
+				hi := j + 100
+				if hi > len(t) {
+					hi = len(t)
+				}
+				return t[lo:hi]
+			}
+			return fmt.Sprintf("the %s differs at byte %d: evaluation 1 `...%s` vs a later evaluation `...%s`", names[i], j, cut(x), cut(y))
+		}
+	}
+	return "observations differ"
 }
 
 // firstDiff shows the neighbourhood of the first byte at which two marshalled forms differ
@@ -103,6 +138,10 @@ func firstDiff(a, b []byte) string {
 }
 
 func main() {
+	if os.Args[1] == "hist" {
+		histMain()
+		return
+	}
 	n, _ := strconv.Atoi(os.Args[1])
 	w := bufio.NewWriterSize(os.Stdout, 1<<20)
 	defer w.Flush()
@@ -192,6 +231,7 @@ func main() {
 				}
 			}
 			firstE := ""
+			evalWhy := ""
 			sameE := 1
 			timedOut := false
 			for i := 0; i < n; i++ {
@@ -203,6 +243,9 @@ func main() {
 				if i == 0 {
 					firstE = e
 				} else if e != firstE {
+					if sameE == 1 {
+						evalWhy = obsDiff(firstE, e)
+					}
 					sameE = 0
 				}
 			}
@@ -213,6 +256,9 @@ func main() {
 				} else if e != firstE {
 					sameR = 0
 					reloadWhy = "evaluation-of-reloaded-code-differs:" + strings.SplitN(e, "\x00", 2)[0]
+					if strings.SplitN(e, "\x00", 2)[0] == strings.SplitN(firstE, "\x00", 2)[0] {
+						reloadWhy = "evaluation-of-reloaded-code-differs(output-or-host-view):" + strings.ReplaceAll(e, "\x00", "|")
+					}
 				}
 			}
 			if timedOut {
@@ -228,8 +274,8 @@ func main() {
 			if len(reloadWhy) > 300 {
 				reloadWhy = reloadWhy[:300]
 			}
-			fmt.Fprintf(w, "D %x %x same_compile=%d same_eval=%d same_reload=%d %s %s\n", hm[:8], he[:8], sameC, sameE, sameR, show,
-				hex.EncodeToString([]byte(reloadWhy)))
+			fmt.Fprintf(w, "D %x %x same_compile=%d same_eval=%d same_reload=%d %s %s %s\n", hm[:8], he[:8], sameC, sameE, sameR, show,
+				hex.EncodeToString([]byte(reloadWhy)), hex.EncodeToString([]byte(evalWhy)))
 		}()
 	}
 }
